@@ -294,7 +294,9 @@ alwaysS=True)` ends with the operator followed by one space item, whatever came 
 preferences at all; a serializer that used `prefs.spacer` here would fuse `- 10px` into `-10px`) -/
 theorem calc_operator_followed_by_space (out : List (List Nat)) (v : List Nat) :
     ∃ o, outAppendOperator out v = o ++ [v, [0x20]] :=
-  ⟨_, rfl⟩
+  ⟨(if wouldFuse (if endsWithRawSpace v then removeLastIfS out else out) v
+      then (if endsWithRawSpace v then removeLastIfS out else out) ++ [[0x20]]
+      else (if endsWithRawSpace v then removeLastIfS out else out)), by simp [outAppendOperator, outPush]⟩
 
 /-- kernel-run small-scope TEST (not a general theorem): 72 expressions `calc(a o1 b o2 calc(c))` over positive,
 negative and signed operands and all operators are written with exactly one space around every operator — the same
